@@ -1,5 +1,6 @@
 import SeqVerif.Model.Pruning
 import SeqVerif.Model.PruningBorders
+import SeqVerif.Model.PruningSearchDocs
 import SeqVerif.Model.C14Consts
 /-!
 # C14 - time-range pruning never hides a document that lies in the requested range
@@ -246,6 +247,105 @@ example :
        ⟨[[1000000000500]].foldl appendBulk (newInfo 1000000000400), [(1000000000500, 9)]⟩]
     scanPruned fs 999999999999 1000000000500 = [(999999999999, 8), (1000000000500, 9)] ∧
     (filterInRange fs 999998900000 999999900000).length = 0 := by decide
+
+/-! ## Composition with C05: `SearchDocs` does not notice the distribution refinement -/
+
+/-- **C14 ∘ C05.**  C05 (`SV.Merge.searchDocs`) models `Searcher.SearchDocs` with `prepareFracs` filtering by the
+plain `DocsTotal/From/To` test.  Pair every C05 fraction (its `docs` = keys `mid*2^64+rid` of its documents that
+match the query inside `[qf, qt]`) with its real `frac.Info` (life cycle `FracOK`: active, sealed with the MIDs
+distribution, or restored from the persisted form) and run the same guard/sort/loop over the fractions kept by the
+real `Info.IsIntersecting` instead (`searchDocsDist`): for every `FractionsPerIteration`, both orders, every limit the
+returned IDs are identical, and so are total and every histogram bucket when no document is stored twice (C05's own
+hypothesis for totals).  Hypotheses: C05's fraction invariant, the two views describe the same fraction (`hview`),
+the matching documents were indexed into the fraction (`hok`), C05's `MaxFractionHits` guard passes. -/
+theorem c14_searchDocs_compose (c : SV.Merge.Cfg) (ps : List (SV.Merge.Frac × Info)) (qf qt L : Nat)
+    (hqt : qt < 18446744073709551616)
+    (hinv : ∀ p, p ∈ ps → SV.Merge.FracInv p.1)
+    (hview : ∀ p, p ∈ ps → p.1.docsTotal = p.2.docsTotal ∧ p.1.from_ = p.2.ifrom ∧ p.1.to_ = p.2.ito)
+    (hok : ∀ p, p ∈ ps → ∃ g, FracOK g ∧ g.info = p.2 ∧
+      ∀ k, k ∈ p.1.docs → qf ≤ SV.Merge.midOf k ∧ SV.Merge.midOf k ≤ qt ∧ ∃ rid, (SV.Merge.midOf k, rid) ∈ g.docs)
+    (hmax : c.maxHits = 0 ∨ (SV.Merge.filterInRange (ps.map Prod.fst) qf qt).length ≤ c.maxHits) :
+    ∃ q q', SV.Merge.searchDocs c (ps.map Prod.fst) qf qt L = some q ∧
+      SV.Merge.searchDocsDist c ps qf qt L = some q' ∧ q'.ids = q.ids ∧
+      ((SV.Merge.docsOf (ps.map Prod.fst)).Nodup →
+        q'.total = q.total ∧ ∀ k, SV.Merge.histGet q'.hist k = SV.Merge.histGet q.hist k) := by
+  open SV.Merge in
+  -- the real check keeps every fraction that has a matching document in range (C14 soundness) ...
+  have hkeep : ∀ p, p ∈ ps → p.1.docs ≠ [] → FracInfo.isIntersecting p.2 qf qt = true := by
+    intro p hp hne
+    rcases hok p hp with ⟨g, hg, hinfo, hdocs⟩
+    rcases List.exists_mem_of_ne_nil _ hne with ⟨k, hk⟩
+    rcases hdocs k hk with ⟨h1, h2, rid, hmem⟩
+    rw [← hinfo]
+    exact c14_fracOK_sound hg (midOf k, rid) hmem qf qt h1 h2 hqt
+  -- ... and it only refines C05's border test
+  have hrefine : ∀ p, p ∈ ps → FracInfo.isIntersecting p.2 qf qt = true → isIntersecting p.1 qf qt = true := by
+    intro p hp h
+    have hb := border_of_isIntersecting h
+    have hv := hview p hp
+    unfold Merge.isIntersecting
+    rw [hv.1, hv.2.1, hv.2.2]
+    simp only [hb.1, hb.2, if_false]
+  have hvis : ∀ f, f ∈ ps.map Prod.fst → f.docs ≠ [] → isIntersecting f qf qt = true := by
+    intro f hf hne
+    rcases List.mem_map.1 hf with ⟨p, hp, rfl⟩
+    exact hrefine p hp (hkeep p hp hne)
+  have hinv1 : ∀ f, f ∈ filterInRange (ps.map Prod.fst) qf qt → FracInv f := by
+    intro f hf
+    rcases List.mem_map.1 (List.mem_filter.1 hf).1 with ⟨p, hp, rfl⟩
+    exact hinv p hp
+  have hinv2 : ∀ f, f ∈ keptDist ps qf qt → FracInv f := by
+    intro f hf
+    rcases List.mem_map.1 hf with ⟨p, hp, rfl⟩
+    exact hinv p (List.mem_filter.1 hp).1
+  have hlen : (keptDist ps qf qt).length ≤ (filterInRange (ps.map Prod.fst) qf qt).length := by
+    unfold keptDist Merge.filterInRange
+    rw [List.length_map, List.filter_map, List.length_map]
+    exact length_filter_le_of_imp _ _ ps (fun p hp h => hrefine p hp h)
+  have hmax2 : c.maxHits = 0 ∨ (keptDist ps qf qt).length ≤ c.maxHits := by omega
+  have hd1 : docsOf (filterInRange (ps.map Prod.fst) qf qt) = docsOf (ps.map Prod.fst) :=
+    docsOf_filter _ _ (fun f hf hp => by
+      cases hd : f.docs with
+      | nil => rfl
+      | cons d ds =>
+        have := hvis f hf (by simp [hd])
+        rw [this] at hp; exact absurd hp (by simp))
+  have hd2 := docsOf_keptDist ps qf qt hkeep
+  obtain ⟨q, hq, hqi⟩ := searchOver_ids c _ L hinv1 hmax
+  obtain ⟨q', hq', hqi'⟩ := searchOver_ids c _ L hinv2 hmax2
+  refine ⟨q, q', by rw [searchDocs_eq_searchOver]; exact hq, hq', by rw [hqi, hqi', hd1, hd2], ?_⟩
+  intro hnd
+  obtain ⟨r, hr, hrt, hrh⟩ := searchOver_total_hist c _ L hmax (by rw [hd1]; exact hnd)
+  obtain ⟨r', hr', hrt', hrh'⟩ := searchOver_total_hist c _ L hmax2 (by rw [hd2]; exact hnd)
+  rw [hq] at hr; rw [hr'] at hq'
+  injection hr with hr; injection hq' with hq'
+  subst hr; subst hq'
+  exact ⟨by rw [hrt, hrt', hd1, hd2], fun k => by rw [hrh k, hrh' k, hd1, hd2]⟩
+
+/-- non-vacuity: one sealed fraction with a distribution, its oldest document matches; all hypotheses hold -/
+example :
+    let info := FracInfo.sealed consts 1000000000000 [[999998800000], [999999999999]]
+    let f : SV.Merge.Frac := ⟨2, 999998800000, 999999999999, [SV.Merge.key 999998800000 7]⟩
+    ∃ q q', SV.Merge.searchDocs ⟨true, true, 0, false, 0, 0⟩ [f] 999998800000 999998800000 10 = some q ∧
+      SV.Merge.searchDocsDist ⟨true, true, 0, false, 0, 0⟩ [(f, info)] 999998800000 999998800000 10 = some q' ∧
+      q'.ids = q.ids := by
+  intro info f
+  have h := c14_searchDocs_compose ⟨true, true, 0, false, 0, 0⟩ [(f, info)] 999998800000 999998800000 10 (by decide)
+    (fun p hp => by
+      rw [List.mem_singleton] at hp; subst hp
+      intro d hd
+      rw [List.mem_singleton] at hd; subst hd
+      decide)
+    (fun p hp => by rw [List.mem_singleton] at hp; subst hp; decide)
+    (fun p hp => by
+      rw [List.mem_singleton] at hp; subst hp
+      refine ⟨_, FracOK.sealed 1000000000000 [[(999998800000, 7)], [(999999999999, 8)]], rfl, ?_⟩
+      intro k hk
+      rw [List.mem_singleton] at hk; subst hk
+      exact ⟨by decide, by decide, 7, by decide⟩)
+    (Or.inl rfl)
+  obtain ⟨q, q', h1, h2, h3, _⟩ := h
+  exact ⟨q, q', h1, h2, h3⟩
 
 /-! ## History: the defect this property found (fixed in /repo by c7b3453) -/
 
